@@ -4,12 +4,12 @@ CONSTANTS
   MaxAuto = 1
   MaxBackups = 1
   Delta = {1}
-  GateDuringFileCopy = FALSE
+  GateDuringFileCopy = TRUE
   SnapshotBeforeCopy = TRUE
   DumpInOneReadTxn = TRUE
   BackupSingleStep = TRUE
   StreamEndDetected = TRUE
   AbortAfterPartial = TRUE
   EndMarkerOnlyOnSuccess = TRUE
-  CopyErrorReturned = TRUE
-INVARIANTS TypeOK Consistent Complete CutIsError GateReleased
+  CopyErrorReturned = FALSE
+INVARIANTS TypeOK CutIsError Consistent Complete GateReleased
